@@ -168,7 +168,7 @@ CHECKS = {
         text="Generated histories of {Environment(runner class, package, annotations), compile+program, evaluate, re-evaluate} over pools built to touch shared state; each history "
              "runs in a child forked from an import-only process; each evaluation is compared with the same (configuration, expression, bindings) evaluated alone in a fresh "
              "forked process; caller's bindings unmodified; re-evaluation stable; failing histories minimised by greedy operation removal.",
-        note="lark's LALR analysis is loaded from a per-tree-class cache file in all processes alike (speed-up only); pools are finite (18 environments, 26 expressions, 20 binding sets, 5 host-function configurations incl. list/dict form and a built-in override).",
+        note="lark's LALR analysis is loaded from a per-tree-class cache file in all processes alike (speed-up only); pools are finite (18 environments, 29 expressions, 26 binding sets incl. mis-spelled zone names and patterns, 5 host-function configurations incl. list/dict form and a built-in override).",
         design_ref="DESIGN.md §4 C05",
     ),
     "C16": dict(
